@@ -24,6 +24,9 @@ type wit struct {
 	Note  string `json:"note,omitempty"`
 }
 
+// results of earlier calls: the slice as returned, and a copy of what it held then
+var kept [][2][]byte
+
 func check(c *mon.Ctx, s []byte, class string) {
 	snap := append([]byte{}, s...)
 	got := gots.ComputeCRC(s)
@@ -36,6 +39,18 @@ func check(c *mon.Ctx, s []byte, class string) {
 	if !bytes.Equal(s, snap) {
 		c.Fail("crc:mutates-input", "ComputeCRC modified its input", wit{Input: mon.Hex(snap)})
 	}
+	// the four bytes returned for earlier strings are still theirs after this call
+	for _, k := range kept {
+		if !bytes.Equal(k[0], k[1]) {
+			c.Fail("crc:earlier-result-changed-by-later-call", fmt.Sprintf("the slice an earlier ComputeCRC call returned now reads %x; it was %x when returned", k[0], k[1]), wit{mon.Hex(s), mon.Hex(k[0]), mon.Hex(k[1]), "checked after a later call on this input"})
+			kept = nil
+			break
+		}
+	}
+	if len(kept) >= 6 {
+		kept = kept[1:]
+	}
+	kept = append(kept, [2][]byte{got, append([]byte{}, got...)})
 	// residue identity
 	ext := append(append([]byte{}, s...), got...)
 	if res := gots.ComputeCRC(ext); !bytes.Equal(res, []byte{0, 0, 0, 0}) {
